@@ -224,7 +224,10 @@ def header_lines(rng, profile=None):
         if trs and teams:
             tr = rng.choice(trs)
             import email.utils
-            addr = email.utils.parseaddr(tr)[1]
+            try:
+                addr = email.utils.parseaddr(tr)[1]
+            except RecursionError:
+                addr = ''
             rng.choice(teams)[1] = rng.choice([tr, addr, 'Team <' + addr + '>', addr.upper(), tr + ' '])
             if rng.random() < 0.4:
                 fields.append(['Last-Translator', rng.choice(['Other <' + addr + '>', 'Zed <' + addr + '>', tr])])
